@@ -270,6 +270,38 @@ func newPairingSuite(key string) pairing.Suite {
 	panic("unknown pairing suite " + key)
 }
 
+// custom domain separation tags whose lengths (17, 44) are not allocator size classes
+var (
+	tagG1 = []byte("C20-DST-G1-17byte")
+	tagG2 = []byte("C20-custom-domain-separation-tag-G2-44-bytes")
+)
+
+// configuredPairingSuite constructs a NEW pairing suite and configures it through its setters (rep "configured");
+// nil when the back-end has no setters.
+func configuredPairingSuite(key string) pairing.Suite {
+	if len(tagG1) != 17 || len(tagG2) != 44 {
+		panic("tag lengths")
+	}
+	switch key {
+	case "bn254":
+		s := bn254.NewSuite()
+		s.SetDomainG1(dup(tagG1))
+		s.SetDomainG2(dup(tagG2))
+		return s
+	case "kilic":
+		s, ok := kilic.NewBLS12381Suite().(*kilic.Suite)
+		if !ok {
+			panic("kilic suite type")
+		}
+		s.SetDomainG1(dup(tagG1))
+		s.SetDomainG2(dup(tagG2))
+		return s
+	}
+	return nil
+}
+
+func dup(b []byte) []byte { return append([]byte(nil), b...) }
+
 // newGroup constructs a NEW group / suite object for the PubPoly configurations.
 func newGroup(name string) kyber.Group {
 	switch name {
@@ -294,9 +326,20 @@ func newGroup(name string) kyber.Group {
 //	             first calls (RandomStream(), Hash(), XOF(), Point()/Scalar()) concurrently with the others and
 //	             draws from the stream it was handed
 //	rep "warm":  RandomStream() was called once by the constructing goroutine; that one stream object is shared
-func suiteInstance(config string, mk func() fullSuite, grp func(fullSuite) kyber.Group, canPick bool) instance {
-	return instance{kind: "suite", config: config, cost: 1, build: one(func(rep string) ops {
-		s := mk()
+//	rep "configured": the suite was configured through its setters (custom DSTs) before being shared
+func suiteInstance(config string, mk func() fullSuite, grp func(fullSuite) kyber.Group, canPick bool, mkConf func() fullSuite) instance {
+	// decided on a private object: is hash-to-point offered (G1, and G2 for pairing suites)
+	_, hashable := grp(mk()).Point().(kyber.HashablePoint)
+	return instance{kind: "suite", config: config, cost: 1, build: func(rep string) []ops {
+		var s fullSuite
+		if rep == "configured" {
+			if mkConf == nil {
+				return nil // no setters: representation not offered
+			}
+			s = mkConf()
+		} else {
+			s = mk()
+		}
 		getStream := func() cipher.Stream { return s.RandomStream() }
 		if rep == "warm" {
 			rs := s.RandomStream()
@@ -353,8 +396,20 @@ func suiteInstance(config string, mk func() fullSuite, grp func(fullSuite) kyber
 				return "pair"
 			}
 		}
-		return o
-	})}
+		if hashable {
+			o["HashToPoint"] = func() string {
+				msg := []byte("hash to curve through a shared suite")
+				out := hx(grp(s).Point().(kyber.HashablePoint).Hash(msg).MarshalBinary())
+				if ps, ok := s.(pairing.Suite); ok {
+					if h2, ok := ps.G2().Point().(kyber.HashablePoint); ok {
+						out += hx(h2.Hash(msg).MarshalBinary())
+					}
+				}
+				return out
+			}
+		}
+		return []ops{o}
+	}}
 }
 
 // ---------------------------------------------------------------- pairings
@@ -459,6 +514,7 @@ func bdnMaskInstance(key string, seed int64) instance {
 				return hex.EncodeToString(c.Mask())
 			},
 			"Mask":              func() string { return hex.EncodeToString(m.Mask()) },
+			"#observe":          func() string { return hex.EncodeToString(m.Mask()) + fmt.Sprint(m.CountEnabled(), m.CountTotal()) },
 			"Publics":           func() string { return fmt.Sprint(len(m.Publics())) + hx(m.Publics()[4].MarshalBinary()) },
 			"Participants":      func() string { pp := m.Participants(); return fmt.Sprint(len(pp)) + hx(pp[1].MarshalBinary()) },
 			"CountEnabled":      func() string { return fmt.Sprint(m.CountEnabled(), m.CountTotal(), m.Len()) },
@@ -563,19 +619,34 @@ func pubPolyInstance(name string, seed int64) instance {
 		for i := range commits {
 			cs[i] = commits[i].Clone()
 		}
-		pub := share.NewPubPoly(newGroup(name), base, cs) // rep "fresh": a new group / suite object behind the polynomial
-		pub2 := pri.Commit(base)
+		// rep "fresh": a new group / suite object behind the polynomial; rep "nilbase": the standard base given as nil
+		// (as Commit(nil) / NewPubPoly(g, nil, ...) do), nothing queried before the object is shared
+		pbase := base
+		if rep == "nilbase" {
+			pbase = nil
+		}
+		pub := share.NewPubPoly(newGroup(name), pbase, cs)
+		pub2 := pri.Commit(pbase)
+		info := func() string {
+			b, c := pub.Info()
+			out := "base=nil"
+			if b != nil {
+				out = "base=" + hx(b.MarshalBinary())
+			}
+			for _, ci := range c {
+				out += "," + hx(ci.MarshalBinary())
+			}
+			return out + fmt.Sprint(",t=", pub.Threshold())
+		}
 		return ops{
 			"Eval": func() string { s := pub.Eval(2); return fmt.Sprint(s.I) + hx(s.V.MarshalBinary()) },
 			"Check": func() string {
 				return fmt.Sprint(pub.Check(shares[1]), pub.Check(&share.PriShare{I: 2, V: shares[1].V}))
 			},
-			"Commit": func() string { return hx(pub.Commit().MarshalBinary()) },
-			"Info": func() string {
-				b, c := pub.Info()
-				return hx(b.MarshalBinary()) + hx(c[len(c)-1].MarshalBinary())
-			},
-			"Equal": func() string { return fmt.Sprint(pub.Equal(pub2), pub2.Equal(pub)) },
+			"Commit":   func() string { return hx(pub.Commit().MarshalBinary()) },
+			"Info":     info,
+			"#observe": info, // every observable of the object the public API exposes
+			"Equal":    func() string { return fmt.Sprint(pub.Equal(pub2), pub2.Equal(pub)) },
 			"Shares": func() string {
 				ss := pub.Shares(4)
 				return hx(ss[3].V.MarshalBinary())
@@ -595,18 +666,23 @@ type vcase struct {
 	verify func(m []byte) error
 	key    kyber.Point
 	msg    []byte
+	sign   func(m []byte) ([]byte, error) // deterministic signing through the shared scheme object (nil: not offered)
 }
 
-func verifier(config string, cost int, build func() []vcase) instance {
+func verifier(config string, cost int, build func(rep string) []vcase) instance {
 	return instance{kind: "verifier", config: config, cost: cost, build: func(rep string) []ops {
 		var out []ops
-		for _, c := range build() {
+		for _, c := range build(rep) {
 			c := c
-			out = append(out, ops{
+			o := ops{
 				"Verify":         func() string { return fmt.Sprint(c.verify(c.msg)) },
 				"VerifyWrongMsg": func() string { return fmt.Sprint(c.verify(vwrong) != nil) },
 				"MarshalKey":     func() string { return hx(c.key.MarshalBinary()) },
-			})
+			}
+			if c.sign != nil {
+				o["Sign"] = func() string { return hx(c.sign(c.msg)) }
+			}
+			out = append(out, o)
 		}
 		return out
 	}}
@@ -638,7 +714,10 @@ func plainVerifier(name string, seed int64) instance {
 			enc, _ := s.Point().Mul(x, nil).MarshalBinary()
 			encs, sigs = append(encs, enc), append(sigs, sig)
 		}
-		return verifier(name, 1, func() []vcase {
+		return verifier(name, 1, func(rep string) []vcase {
+			if rep != "fresh" {
+				return nil
+			}
 			// rep "fresh": a new suite and a new scheme object per repetition
 			var fs schnorr.Suite = p256.NewBlakeSHA256P256()
 			if name == "schnorr/ed25519" {
@@ -648,7 +727,7 @@ func plainVerifier(name string, seed int64) instance {
 			var out []vcase
 			for i := range msgs {
 				key, sig := decodeKey(s, encs[i]), sigs[i]
-				out = append(out, vcase{func(m []byte) error { return sch.Verify(key, m, sig) }, key, msgs[i]})
+				out = append(out, vcase{verify: func(m []byte) error { return sch.Verify(key, m, sig) }, key: key, msg: msgs[i]})
 			}
 			return out
 		})
@@ -664,11 +743,14 @@ func plainVerifier(name string, seed int64) instance {
 			enc, _ := e.Public.MarshalBinary()
 			encs, sigs = append(encs, enc), append(sigs, sig)
 		}
-		return verifier(name, 1, func() []vcase {
+		return verifier(name, 1, func(rep string) []vcase {
+			if rep != "fresh" {
+				return nil
+			}
 			var out []vcase
 			for i := range msgs {
 				key, sig := decodeKey(g, encs[i]), sigs[i]
-				out = append(out, vcase{func(m []byte) error { return eddsa.Verify(key, m, sig) }, key, msgs[i]})
+				out = append(out, vcase{verify: func(m []byte) error { return eddsa.Verify(key, m, sig) }, key: key, msg: msgs[i]})
 			}
 			return out
 		})
@@ -692,17 +774,20 @@ func plainVerifier(name string, seed int64) instance {
 			eG, _ := xG.MarshalBinary()
 			pfs = append(pfs, pf{pr, eG, xH})
 		}
-		return verifier(name, 1, func() []vcase {
+		return verifier(name, 1, func(rep string) []vcase {
+			if rep != "fresh" {
+				return nil
+			}
 			fs := edwards25519.NewBlakeSHA256Ed25519() // rep "fresh": a new suite object per repetition
 			var out []vcase
 			for i := range msgs {
 				p, k, good := pfs[i], decodeKey(s, pfs[i].eG), msgs[i]
-				out = append(out, vcase{func(m []byte) error {
+				out = append(out, vcase{verify: func(m []byte) error {
 					if bytes.Equal(m, good) {
 						return p.pr.Verify(fs, G, H, k, p.xH)
 					}
 					return p.pr.Verify(fs, G, H, k, G)
-				}, k, good})
+				}, key: k, msg: good})
 			}
 			return out
 		})
@@ -721,38 +806,62 @@ func blsVerifier(sk string, seed int64, useBdn bool) instance {
 		}
 	}
 	msgs := [][]byte{vmsg, vmsg2}
-	scheme := bls.NewSchemeOnG1(s)
-	var encs, sigs [][]byte
-	for i, m := range msgs {
-		x, X := scheme.NewKeyPair(stream(seed, fmt.Sprint("bls", sk, i)))
-		var sig []byte
-		var err error
-		if useBdn {
-			sig, err = bdn.Sign(s, x, m)
-		} else {
-			sig, err = scheme.Sign(x, m)
-		}
-		if err != nil {
-			panic(err)
-		}
-		enc, _ := X.MarshalBinary()
-		encs, sigs = append(encs, enc), append(sigs, sig)
+	type mat struct {
+		xs         []kyber.Scalar
+		encs, sigs [][]byte
 	}
+	// keys and signatures per representation: default domain tags, and tags set through the suite's setters
+	mk := func(ss pairing.Suite) *mat {
+		if ss == nil {
+			return nil
+		}
+		m := &mat{}
+		scheme := bls.NewSchemeOnG1(ss)
+		for i, msg := range msgs {
+			x, X := scheme.NewKeyPair(stream(seed, fmt.Sprint("bls", sk, i)))
+			var sig []byte
+			var err error
+			if useBdn {
+				sig, err = bdn.Sign(ss, x, msg)
+			} else {
+				sig, err = scheme.Sign(x, msg)
+			}
+			if err != nil {
+				panic(err)
+			}
+			enc, _ := X.MarshalBinary()
+			m.xs, m.encs, m.sigs = append(m.xs, x), append(m.encs, enc), append(m.sigs, sig)
+		}
+		return m
+	}
+	mats := map[string]*mat{"fresh": mk(s), "configured": mk(configuredPairingSuite(sk))}
 	name := "bls/" + sk
 	if useBdn {
 		name = "bdn/" + sk
 	}
-	return verifier(name, 3, func() []vcase {
-		fs := newPairingSuite(sk) // rep "fresh": new suite, new scheme object
+	return verifier(name, 3, func(rep string) []vcase {
+		m := mats[rep]
+		if m == nil {
+			return nil // no setters: representation not offered
+		}
+		// a new suite (rep "configured": configured through its setters before being shared) and a new scheme object
+		fs := newPairingSuite(sk)
+		if rep == "configured" {
+			fs = configuredPairingSuite(sk)
+		}
 		sch := bls.NewSchemeOnG1(fs)
 		var out []vcase
 		for i := range msgs {
-			key, sig := decodeKey(s.G2(), encs[i]), sigs[i]
-			v := func(m []byte) error { return sch.Verify(key, m, sig) }
+			key, sig, x := decodeKey(s.G2(), m.encs[i]), m.sigs[i], m.xs[i]
+			c := vcase{key: key, msg: msgs[i]}
 			if useBdn {
-				v = func(m []byte) error { return bdn.Verify(fs, key, m, sig) }
+				c.verify = func(mm []byte) error { return bdn.Verify(fs, key, mm, sig) }
+				c.sign = func(mm []byte) ([]byte, error) { return bdn.Sign(fs, x, mm) }
+			} else {
+				c.verify = func(mm []byte) error { return sch.Verify(key, mm, sig) }
+				c.sign = func(mm []byte) ([]byte, error) { return sch.Sign(x, mm) }
 			}
-			out = append(out, vcase{v, key, msgs[i]})
+			out = append(out, c)
 		}
 		return out
 	})
@@ -939,22 +1048,22 @@ func registry(seed int64) []entry {
 	self := func(s fullSuite) kyber.Group { return s.(kyber.Group) }
 	out = append(out,
 		entry{"suite", "ed25519", func() instance {
-			return suiteInstance("ed25519", func() fullSuite { return edwards25519.NewBlakeSHA256Ed25519() }, self, true)
+			return suiteInstance("ed25519", func() fullSuite { return edwards25519.NewBlakeSHA256Ed25519() }, self, true, nil)
 		}},
 		entry{"suite", "p256", func() instance {
-			return suiteInstance("p256", func() fullSuite { return p256.NewBlakeSHA256P256() }, self, true)
+			return suiteInstance("p256", func() fullSuite { return p256.NewBlakeSHA256P256() }, self, true, nil)
 		}},
 		entry{"suite", "qr512", func() instance {
-			return suiteInstance("qr512", func() fullSuite { return p256.NewBlakeSHA256QR512() }, self, true)
+			return suiteInstance("qr512", func() fullSuite { return p256.NewBlakeSHA256QR512() }, self, true, nil)
 		}},
 		entry{"suite", "bn256-g1", func() instance {
-			return suiteInstance("bn256-g1", func() fullSuite { return bn256.NewSuiteG1() }, self, true)
+			return suiteInstance("bn256-g1", func() fullSuite { return bn256.NewSuiteG1() }, self, true, nil)
 		}},
 		entry{"suite", "bn256-g2", func() instance {
-			return suiteInstance("bn256-g2", func() fullSuite { return bn256.NewSuiteG2() }, self, true)
+			return suiteInstance("bn256-g2", func() fullSuite { return bn256.NewSuiteG2() }, self, true, nil)
 		}},
 		entry{"suite", "bn254-g1", func() instance {
-			return suiteInstance("bn254-g1", func() fullSuite { return bn254.NewSuiteG1() }, self, true)
+			return suiteInstance("bn254-g1", func() fullSuite { return bn254.NewSuiteG1() }, self, true, nil)
 		}},
 	)
 	seen := map[string]bool{}
@@ -964,10 +1073,14 @@ func registry(seed int64) []entry {
 		}
 		seen[g.SuiteKey] = true
 		key := g.SuiteKey
-		if key == "kilic" || key == "circl" || key == "gnark" {
+		if key == "kilic" || key == "circl" || key == "gnark" || key == "bn254" {
 			out = append(out, entry{"suite", key, func() instance {
+				var conf func() fullSuite
+				if configuredPairingSuite(key) != nil {
+					conf = func() fullSuite { return configuredPairingSuite(key) }
+				}
 				return suiteInstance(key, func() fullSuite { return newPairingSuite(key) },
-					func(s fullSuite) kyber.Group { return s.(pairing.Suite).G1() }, true)
+					func(s fullSuite) kyber.Group { return s.(pairing.Suite).G1() }, true, conf)
 			}})
 		}
 		out = append(out, entry{"pairing", key, func() instance { return pairingInstance(key, seed) }})
@@ -1154,6 +1267,14 @@ func runShard(cfg Config, wls []Workload) (*outcome, error) {
 			det bool
 		}
 		seq := map[string]seqv{} // rep/op -> value of the operation run alone on a fresh object
+		prist := map[string]string{}
+		pristine := func(rep string, v int) string { // observables of an object nothing was called on
+			k := fmt.Sprint(rep, "/", v)
+			if _, ok := prist[k]; !ok {
+				prist[k] = inst.build(rep)[v]["#observe"]()
+			}
+			return prist[k]
+		}
 		reps := cfg.Reps
 		racy := map[string]bool{}
 		for _, wl := range wls {
@@ -1199,9 +1320,21 @@ func runShard(cfg Config, wls []Workload) (*outcome, error) {
 					k := fmt.Sprint(wl.Rep, "/", v, "/", op)
 					sv, ok := seq[k]
 					if !ok {
-						a, b := inst.build(wl.Rep)[v][op](), inst.build(wl.Rep)[v][op]()
+						o1 := inst.build(wl.Rep)[v]
+						a, b := o1[op](), inst.build(wl.Rep)[v][op]()
 						sv = seqv{a, a == b && !inst.unique} // random draws are not compared
 						seq[k] = sv
+						// run alone, a read-only call leaves every observable of the object as it was
+						if ob := o1["#observe"]; ob != nil {
+							if got, untouched := ob(), pristine(wl.Rep, v); got != untouched {
+								out.Violations = append(out.Violations, core.Violation{
+									Key:  fmt.Sprintf("%s/%s/%s/%s/object-changed", cfg.Prop, inst.kind, inst.config, op),
+									What: "a read-only call changed an observable of the object it was called on (sequential run, no other goroutine)",
+									Detail: map[string]any{"behaviour": wl, "config": inst.config, "op": op, "after": got,
+										"untouched": untouched},
+								})
+							}
+						}
 					}
 					want[fmt.Sprint(v, "/", op)], det[fmt.Sprint(v, "/", op)] = sv.val, sv.det
 				}
@@ -1215,6 +1348,7 @@ func runShard(cfg Config, wls []Workload) (*outcome, error) {
 			newReports() // drain anything caused by set-up (attributed below as harness noise if any)
 			mism := map[string][2]string{}
 			var panics, dups []string
+			var changed [2]string
 			tw := time.Now()
 			done := 0
 			for r := 0; r < reps && (r < 1 || time.Since(tw) < budget); r++ {
@@ -1242,6 +1376,13 @@ func runShard(cfg Config, wls []Workload) (*outcome, error) {
 				close(start)
 				wg.Wait()
 				out.Runs += gor
+				for v := 0; v < nobj; v++ {
+					if ob := obj[v]["#observe"]; ob != nil {
+						if got, untouched := ob(), pristine(wl.Rep, v); got != untouched {
+							changed = [2]string{got, untouched}
+						}
+					}
+				}
 				if inst.unique {
 					seenDraw := map[string]int{}
 					for gi, got := range res {
@@ -1291,6 +1432,13 @@ func runShard(cfg Config, wls []Workload) (*outcome, error) {
 					Key:    fmt.Sprintf("%s/%s/result-differs", base, op),
 					What:   "a read-only operation returned a different result under concurrent read-only use than when run alone",
 					Detail: detail(map[string]any{"op": op, "got": gw[0], "want": gw[1]}),
+				})
+			}
+			if changed[0] != "" || changed[1] != "" {
+				out.Violations = append(out.Violations, core.Violation{
+					Key:    fmt.Sprintf("%s/%s/object-changed", base, strings.Join(wl.Ops, "|")),
+					What:   "after concurrent read-only calls an observable of the shared object differs from an untouched object",
+					Detail: detail(map[string]any{"after": changed[0], "untouched": changed[1]}),
 				})
 			}
 			if len(dups) > 0 {
